@@ -76,6 +76,7 @@ class Oracle:
         self.i = 0
         self.perm = perm
         self.ncalls = 0
+        self.weights = []
 
     def next(self):
         d = self.draws[self.i] if self.i < len(self.draws) else 0
@@ -84,6 +85,8 @@ class Oracle:
         return d
 
     def choice(self, a, size=None, replace=True, p=None):
+        if p is not None:
+            self.weights.append([float(x) for x in p])     # what the code hands to the generator
         d = self.next()
         arr = np.arange(int(a)) if isinstance(a, (int, np.integer)) else np.asarray(a)
         if p is not None:   # only outcomes of non-zero probability can be drawn
@@ -142,6 +145,35 @@ def call(fn, *args, draws=(), perm=None, **kw):
     """Run fn under the oracle and a watchdog. Returns ("Ok", value) | ("ValueError", msg) | ("Raise", typename, msg)."""
     o = Oracle(draws, perm)
     name = getattr(fn, "__qualname__", "call")
+    # none of the helpers may change the lists / dicts it is handed (except the two documented in-place updaters)
+    LAST_ORACLE[0] = o
+    snap = [copy.deepcopy(a) if isinstance(a, (list, dict)) and name not in IN_PLACE else None for a in args]
+    try:
+        return _call(fn, name, o, args, kw)
+    finally:
+        for i, (before, after) in enumerate(zip(snap, args)):
+            if before is not None and _canon(before) != _canon(after):
+                MUTATED.append((name, i, _canon(before), _canon(after)))
+
+
+def _canon(x):
+    if isinstance(x, (list, tuple)):
+        return [_canon(v) for v in x]
+    if isinstance(x, dict):
+        return sorted((repr(k), _canon(v)) for k, v in x.items())
+    if isinstance(x, np.ndarray):
+        return ["ndarray", x.tolist()]
+    if isinstance(x, np.generic):
+        return x.item()
+    return x
+
+
+LAST_ORACLE = [None]
+IN_PLACE = {"_update_subgraphs_list", "_update_dict"}
+MUTATED = []
+
+
+def _call(fn, name, o, args, kw):
     if _HANGS.get(name, 0) >= 2:      # circuit breaker: this entry point already failed to return twice
         return ("Raise", "Hang", "not run: %s did not return on two earlier inputs" % name)
     with patched(o):
@@ -425,15 +457,15 @@ def pred_mc(d):
     if orbit is not None:
         exact = exact_orbit_card(orbit, m) if len(orbit) <= m else 0
         name, valid = "prob_orbit_mc", in_orbit(orbit, m)
-        fn = lambda: SI.prob_orbit_mc(G, list(orbit), n_mean, S, loss)  # noqa: E731
+        fn = (SI.prob_orbit_mc, G, list(orbit), n_mean, S, loss)
         bad = S < 1 or n_mean < 0 or not 0 <= loss <= 1
     else:
         exact = (exact_event_card(k, c, m) if k > 0 else 1) if (k >= 0 and c >= 0) else 0
         name, valid = "prob_event_mc", in_event(k, c, m)
-        fn = lambda: SI.prob_event_mc(G, k, c, n_mean, S, loss)  # noqa: E731
+        fn = (SI.prob_event_mc, G, k, c, n_mean, S, loss)
         bad = S < 1 or n_mean < 0 or not 0 <= loss <= 1 or k < 0 or c < 0
     with probe_state(valid) as (st, asked):
-        r = call(fn, draws=d["draws"], perm=d["perm"])
+        r = call(*fn, draws=d["draws"], perm=d["perm"])
     if bad:
         return [] if r[0] == "ValueError" else [(name + ":no-error", "%s accepted samples=%r n_mean=%r loss=%r photons=%r max_count=%r: %s" % (name, S, n_mean, loss, k, c, r[:2]))]
     if exact == 0 or exact.bit_length() > 900:
@@ -463,14 +495,14 @@ def pred_pexact(d):
     if orbit is not None:
         exact = exact_orbit_card(orbit, m) if len(orbit) <= m else 0
         name, valid = "prob_orbit_exact", in_orbit(orbit, m)
-        fn = lambda: SI.prob_orbit_exact(G, list(orbit), n_mean, loss)  # noqa: E731
+        fn = (SI.prob_orbit_exact, G, list(orbit), n_mean, loss)
     else:
         exact = exact_event_card(k, c, m) if k > 0 else 1
         name, valid = "prob_event_exact", in_event(k, c, m)
-        fn = lambda: SI.prob_event_exact(G, k, c, n_mean, loss)  # noqa: E731
+        fn = (SI.prob_event_exact, G, k, c, n_mean, loss)
         bad = bad or k < 0 or c < 0
     with probe_state(valid) as (st, asked):
-        r = call(fn)
+        r = call(*fn)
     if bad:
         return [] if r[0] == "ValueError" else [(name + ":no-error", "%s accepted n_mean=%r loss=%r photons=%r max_count=%r" % (name, n_mean, loss, k, c))]
     if r[0] != "Ok":
@@ -500,19 +532,19 @@ def pred_fv(d):
         items, name = d["orbits"], "feature_vector_orbits"
         exact = [exact_orbit_card(o, m) if len(o) <= m else 0 for o in items]
         valid = lambda smp: any(in_orbit(o, m)(smp) for o in items)  # noqa: E731
-        fn = lambda: SI.feature_vector_orbits(G, copy.deepcopy(items), n_mean, S, loss)  # noqa: E731
+        fn, kw = (SI.feature_vector_orbits, G, copy.deepcopy(items), n_mean, S, loss), {}
         bad = len(items) == 0 or any(min(o) < 0 for o in items if o) or n_mean < 0 or not 0 <= loss <= 1
     else:
         items, c, name = d["events"], d["maxc"], "feature_vector_events"
         exact = [(exact_event_card(k, c, m) if k > 0 else 1) if k >= 0 and c >= 0 else 0 for k in items]
         valid = lambda smp: any(in_event(k, c, m)(smp) for k in items)  # noqa: E731
         if c == 2 and d.get("dflt"):
-            fn = lambda: SI.feature_vector_events(G, list(items), n_mean=n_mean, samples=S, loss=loss)  # noqa: E731
+            fn, kw = (SI.feature_vector_events, G, list(items)), {"n_mean": n_mean, "samples": S, "loss": loss}
         else:
-            fn = lambda: SI.feature_vector_events(G, list(items), c, n_mean, S, loss)  # noqa: E731
+            fn, kw = (SI.feature_vector_events, G, list(items), c, n_mean, S, loss), {}
         bad = len(items) == 0 or (items and min(items) < 0) or c < 0 or n_mean < 0 or not 0 <= loss <= 1
     with probe_state(valid) as (st, asked):
-        r = call(fn, draws=d["draws"], perm=d["perm"])
+        r = call(*fn, draws=d["draws"], perm=d["perm"], **kw)
     if bad:
         return [] if r[0] == "ValueError" else [(name + ":no-error", "%s accepted an invalid request %s" % (name, {kk: vv for kk, vv in d.items() if kk not in ("draws", "perm")}))]
     if any(e == 0 for e in exact):
@@ -660,6 +692,14 @@ def pred_e2s(d):
     s = list(r[1])
     if len(s) != m or sum(s) != k or (s and max(s) > c) or SI.sample_to_event(s, c) != k:
         return [("event_to_sample:roundtrip", "event_to_sample(%d,%d,%d) -> %s (event %r)" % (k, c, m, s, SI.sample_to_event(s, c)))]
+    # "selected uniformly at random from the event": an orbit must be drawn with probability |orbit| / |event|
+    ws = LAST_ORACLE[0].weights if LAST_ORACLE[0] is not None else []
+    if ws and k >= 1:
+        total = exact_event_card(k, c, m)
+        want = sorted(float(Fraction(exact_orbit_card(o, m), total)) for o in ref_partitions(k) if max(o) <= c and len(o) <= m)
+        got = sorted(x for x in ws[0] if x > 0)
+        if len(got) != len(want) or any(abs(a - b) > 1e-9 for a, b in zip(got, want)):
+            return [("event_to_sample:orbit-weights", "event_to_sample(%d,%d,%d) draws its orbit with probabilities %s; uniform sampling of the event needs %s" % (k, c, m, got[:8], want[:8]))]
     return []
 
 
@@ -1138,11 +1178,15 @@ PREDS = {
 
 def run_pred(ctx, kind, data, emit=True):
     try:
+        del MUTATED[:]
         try:
             with time_limit(90.0):
-                fails = PREDS[kind](data)
+                fails = list(PREDS[kind](data))
         except Hang:
             fails = [("%s:hangs" % kind, "the implementation did not return within 90 s on this input")]
+        for name, i, before, after in MUTATED[:2]:
+            fails.append(("%s:mutates-input" % name, "%s changed its argument #%d from %r to %r" % (name, i, before, after)))
+        del MUTATED[:]
     except Exception as e:  # noqa: BLE001 — the implementation returned something the predicate cannot even inspect
         fails = [("%s:malformed-result" % kind, "checking the result failed with %s: %s" % (type(e).__name__, str(e)[:200]))]
     if emit:
@@ -1889,6 +1933,19 @@ def search(ctx):
         for hi in range(lo - 1, 8, 2):
             go("sample", {"samples": sweep_samples, "lo": lo, "hi": hi, "graph": g3})
     # ---- estimators observed through a probe state, feature vectors
+    for S in (None, 0, 1, 3):
+        for n_mean, loss in ((5, 0.0), (1.5, 0.25)):
+            base = {"modes": 3, "samples": S, "n_mean": n_mean, "loss": loss, "draws": [0, 1, 2, 3, 4, 5, 6, 7, 8, 9, 10, 11], "perm": [2, 0, 1]}
+            go("fv", dict(base, orbits=[[2, 1], [1], [1, 1]]))
+            go("fv", dict(base, events=[2, 1, 3], maxc=2, dflt=True))
+            go("fv", dict(base, events=[3, 2], maxc=1, dflt=False))
+    for S in (1, 2, 5):
+        go("mc", {"photons": 3, "maxc": 2, "modes": 4, "samples": S, "n_mean": 2.5, "loss": 0.5, "draws": [3, 1, 4, 1, 5, 9, 2, 6, 5, 3], "perm": [3, 1, 0, 2]})
+        go("mc", {"photons": 4, "maxc": 2, "modes": 4, "orbit": [2, 1, 1], "samples": S, "n_mean": 2.5, "loss": 0.5, "draws": [3, 1, 4, 1, 5], "perm": [3, 1, 0, 2]})
+    for orbit in ([1], [2, 1], [1, 1, 1], [3]):
+        go("pexact", {"photons": sum(orbit), "maxc": max(orbit), "modes": 3, "orbit": orbit, "n_mean": 1.5, "loss": 0.25})
+    for k, c in ((0, 1), (2, 1), (2, 2), (3, 1), (3, 2), (4, 1)):
+        go("pexact", {"photons": k, "maxc": c, "modes": 3, "n_mean": 1.5, "loss": 0.25})
     for _ in range(8 * scale):
         k, c, m = rng.randint(0, 7), rng.randint(0, 4), rng.randint(1, 9)
         perm = list(range(m))
